@@ -69,6 +69,11 @@ CHECKS = {
    note="Trusted: simrt + instrumenter; commit tap on the server store; transport stub as in C11; cenkalti/backoff runs for real on the virtual clock (15-minute retry budget costs microseconds). In the quick tier the enumeration is sampled down to 30 scripts per history when larger (reported as enumeration-sampled vs enumeration-complete probes); the thorough tier runs all.",
    technique=TECH+"per-history enumeration of stream-reset positions and re-establishment failures on the simulated transport, stream compared with the server's commit-tap log",
    ref="DESIGN.md §7 C13"),
+ "C17": dict(level="exploration",
+   text="Seeded search over histories of RegisterController / RegisterQController / UpdateInputs calls with valid, duplicate-name, conflicting-output, duplicate-input and kind-invalid declarations, before and after the runtime is started, while a background writer keeps events flowing (UpdateInputs is applied by the controller itself, concurrently with event delivery); after every step acceptance/rejection and the exported dependency graph are compared with a reference model written from the property statement (rejected calls have no effect), a panic of a runtime task is a crash, and after the history every controller's wake-up count must grow exactly for writes matching one of its accepted inputs by kind or by id.",
+   note="Trusted: simrt + instrumenter; 70-line reference model of the dependency database; probe controllers are harness code. Four genuine defects found here were repaired in /repo. Sampling only.",
+   technique=TECH+"step-by-step comparison with a reference model of the dependency database, notification-exactness oracle at quiescence",
+   ref="DESIGN.md §7 C17"),
 }
 
 NOT_YET = "check not built yet in this round (planned in DESIGN.md §7); no claim is made"
